@@ -97,6 +97,9 @@ def run(ctx):
                 raise vlib.ToolError("bigpack scenario: %s" % it)
             ctx.violation({"id": rec["id"], "formula": "Rebuild", "kind": "bigpack", "what": "index not rebuildable from a pack of %s blobs: %s"
                            % (max(rec.get("pack_blobs", [0])), json.dumps(it)[:300]), "detail": it, "record": rec})
+    sweeps = [x for x in brecs if x["id"].startswith("sizes-")]
+    if len(sweeps) < 2 or not all(x.get("covers_boundary") for x in sweeps):
+        raise vlib.ToolError("vacuity: the pack-size sweeps do not cover every size around 4096 / 8192: %s" % [(x["id"], x.get("pack_sizes"), x.get("result")) for x in sweeps])
     if not any(max(x.get("pack_blobs", [0])) >= 9025 for x in brecs):
         raise vlib.ToolError("vacuity: no pack with at least 9025 blobs was produced")
     ctx.traces += len(brecs)
